@@ -373,7 +373,16 @@ def exhaustive_sequences(o, length, kind="map"):
         o.end()
 
 
+def shapes_cases(o):
+    """other element shapes (padding, unsized borrowed forms), one self-checking scenario per capacity."""
+    for cap in (0, 1, 2, 3, 4, 6):
+        o.case(m0=cap, m1=cap, tag="s")
+        o.op("m0 shapes", test=True)
+        o.end()
+
+
 def gen_C01(o, rng, tier):
+    shapes_cases(o)
     n = tier_n(tier)
     for nn in range(0, n + 1):
         product_map(o, nn, lambda reg, u, lay: map_ops_basic(reg, u, full_args=(nn <= 2)),
@@ -796,6 +805,7 @@ def gen_C08(o, rng, tier):
 
 
 def gen_C09(o, rng, tier):
+    shapes_cases(o)
     n = tier_n(tier)
     kinds = ["iter", "keys", "values", "iter_mut", "values_mut"]
     for nn in range(0, n + 1):
@@ -830,6 +840,7 @@ def gen_C09(o, rng, tier):
 
 
 def gen_C10(o, rng, tier):
+    shapes_cases(o)
     n = tier_n(tier)
     for nn in range(0, n + 1):
         u = list(range(nn + 1))
@@ -1085,6 +1096,7 @@ def clone_from_product(o, n):
 
 
 def gen_C15(o, rng, tier):
+    shapes_cases(o)
     n = tier_n(tier)
     for nn in range(0, n + 1):
         u = list(range(nn + 1))
